@@ -137,6 +137,7 @@ class ScriptSock:
     def recv(self, n):
         self._touch("recv")
         self.n_recv += 1
+        self.just_wouldblock = False
         if not isinstance(n, int) or n <= 0:
             self.log.append(("recv-bad-size", n))
             raise ValueError("negative buffersize in recv")
@@ -175,6 +176,13 @@ class ScriptSock:
         if kind == "reset":
             self.log.append(("reset", self.cursor))
             raise ConnectionResetError(104, "Connection reset by peer")
+        if kind == "wouldblock":
+            # a non-blocking transport (timeout 0) with nothing to deliver yet
+            self.log.append(("wouldblock", self.cursor))
+            self.just_wouldblock = True
+            if len(ans) > 1 and ans[1] == "want-read":
+                raise _real_ssl.SSLWantReadError(2, "The operation did not complete (read) (_ssl.c:2580)")
+            raise BlockingIOError(11, "Resource temporarily unavailable")
         if kind in TRANSPORT_ERRORS:
             # other errors of the transport itself (TLS layer, kernel), raised with the argument shapes the real modules use
             self.log.append((kind, self.cursor))
@@ -185,6 +193,20 @@ class ScriptSock:
             self.blocked_forever = True
             raise make_timeout("timeout")
         raise ValueError(ans)
+
+    def select_answer(self, events, timeout):
+        """Readiness as a real kernel would report it: writable always; readable when bytes (or an end-of-stream / error condition) are waiting."""
+        self.n_select = getattr(self, "n_select", 0) + 1
+        if self.n_select > 4 * self.max_fruitless:
+            raise Spin("the transport was polled %d times" % self.n_select)
+        if events & 2:
+            ready = True
+        elif getattr(self, "just_wouldblock", False):
+            ready = False  # the transport has just said that nothing is there yet: a poll at the same instant says the same
+        else:
+            ready = (len(self.stream) - self.cursor) > 0 or self.shut or self.at_end in ("eof", "reset")
+        self.log.append(("select", events, timeout, ready))
+        return ready
 
     def send(self, data):
         self._touch("send")
@@ -219,6 +241,69 @@ class ScriptSock:
     def close(self):
         self.log.append(("close",))
         self.closed = True
+
+
+class ScriptSelector:
+    """Stands in for selectors.DefaultSelector when the library polls a ScriptSock (after a would-block answer): readiness is the
+    transport's answer (ScriptSock.select_answer), no real file descriptor is involved."""
+
+    def __init__(self):
+        self._keys = []
+
+    def register(self, fileobj, events, data=None):
+        self._keys.append((fileobj, events, data))
+        return (fileobj, events, data)
+
+    def unregister(self, fileobj):
+        self._keys = [k for k in self._keys if k[0] is not fileobj]
+
+    def modify(self, fileobj, events, data=None):
+        self.unregister(fileobj)
+        return self.register(fileobj, events, data)
+
+    def close(self):
+        self._keys = []
+
+    def __enter__(self):
+        return self
+
+    def __exit__(self, *a):
+        self.close()
+
+    def select(self, timeout=None):
+        out = []
+        for fileobj, events, data in self._keys:
+            if fileobj.select_answer(events, timeout):
+                out.append(((fileobj, 99, events, data), events))
+        return out
+
+
+class ScriptSelectors:
+    DefaultSelector = ScriptSelector
+    SelectSelector = ScriptSelector
+    PollSelector = ScriptSelector
+    EVENT_READ = 1
+    EVENT_WRITE = 2
+
+
+_selectors_patch = None
+
+
+def install_selectors():
+    """Single-threaded checks only (the scheduler installs its own selectors seam)."""
+    global _selectors_patch
+    import selectors as _sel
+    from . import seams
+    uninstall_selectors()
+    pairs = [(_sel, ScriptSelectors), (_sel.DefaultSelector, ScriptSelector), (_sel.SelectSelector, ScriptSelector)]
+    _selectors_patch = seams.Patch().apply(pairs)
+
+
+def uninstall_selectors():
+    global _selectors_patch
+    if _selectors_patch is not None:
+        _selectors_patch.undo()
+        _selectors_patch = None
 
 
 def make_ws(sock, **kw):
